@@ -131,17 +131,42 @@ void segmentCase(const JV& c, size_t k, const char* ver, std::string& out) {
 	}
 }
 
-void partAssignCase(const JV& c, size_t k, const char* ver, std::string& out) {
+// strips: the file stores the skin partitions as triangle strips (Oblivion / Fallout 3 exporters), and the assignment is the
+// first thing done to the loaded model
+void partAssignCase(const JV& c, size_t k, const char* ver, bool strips, std::string& out) {
 	size_t nt = (size_t) c["nt"].n, np = (size_t) c["np"].n;
-	NifFile nif;
-	nif.Create(versionByName(ver));
-	NiShape* shape = buildShape(nif, "S", nt + 2, fan(nt), true);
+	NifFile made, twin;
+	made.Create(versionByName(ver));
+	NiShape* shape = buildShape(made, "S", nt + 2, fan(nt), true);
 	if (!shape) return;
-	skinShape(nif, shape, 2, [](uint16_t v) {
+	skinShape(made, shape, 2, [](uint16_t v) {
 		std::vector<std::pair<int, float>> w;
 		w.emplace_back(int(v % 2), 1.0f);
 		return w;
 	});
+	NifFile loaded;
+	if (strips) {
+		auto& hd = made.GetHeader();
+		auto si = hd.GetBlock<NiSkinInstance>(shape->SkinInstanceRef());
+		auto sp = si ? hd.GetBlock(si->skinPartitionRef) : nullptr;
+		if (!sp) return;
+		for (auto& p : sp->partitions) {
+			if (p.triangles.empty()) continue;
+			p.strips.clear();
+			p.stripLengths.clear();
+			for (auto& t : p.triangles) {
+				p.strips.push_back({t.p1, t.p2, t.p3});
+				p.stripLengths.push_back(3);
+			}
+			p.numStrips = uint16_t(p.strips.size());
+			p.triangles.clear();
+		}
+		std::string bytes = saveToString(made, false, false);
+		if (loadFromString(loaded, bytes) != 0 || loadFromString(twin, bytes) != 0) return;
+	}
+	NifFile& nif = strips ? loaded : made;
+	shape = byName(nif, "S");
+	if (!shape) return;
 	NiVector<BSDismemberSkinInstance::PartitionInfo> pinfo;
 	for (size_t i = 0; i < np; i++) {
 		BSDismemberSkinInstance::PartitionInfo pi;
@@ -152,7 +177,8 @@ void partAssignCase(const JV& c, size_t k, const char* ver, std::string& out) {
 	std::vector<int> L;
 	for (auto v : c["L"].ints()) L.push_back((int) v);
 	ContentIds ids;
-	std::string s0 = projectShape(nif, shape, ids);
+	// (the state before is read from a twin of the loaded model: reading it converts cached data)
+	std::string s0 = strips ? projectShape(twin, byName(twin, "S"), ids) : projectShape(nif, shape, ids);
 	nif.SetShapePartitions(shape, pinfo, L);
 	nif.UpdateSkinPartitions(shape);
 	NiVector<BSDismemberSkinInstance::PartitionInfo> got;
@@ -160,7 +186,7 @@ void partAssignCase(const JV& c, size_t k, const char* ver, std::string& out) {
 	nif.GetShapePartitions(shape, got, tp);
 	std::string t0 = projectShape(nif, shape, ids);
 	JObj ev;
-	ev.add("e", "partassign").add("case", (long long) k).add("ver", ver).raw("L", intsJson(L)).add("boneLimit", boneLimitOf(nif.GetHeader().GetVersion()));
+	ev.add("e", "partassign").add("case", (long long) k).add("ver", ver).add("strips", strips).raw("L", intsJson(L)).add("boneLimit", boneLimitOf(nif.GetHeader().GetVersion()));
 	ev.raw("s", s0).raw("t", t0);
 	out += ev.done() + "\n";
 	// "the same holds after vertex deletion": a vertex that only some triangles use goes; the labels are read back again.
@@ -201,7 +227,10 @@ int cmdCases(int argc, char** argv) {
 					if (k % 3 == 0) segmentCase(c, k, "FO76", out);
 				}
 				else if (c["k"].s == "partassign")
-					for (const char* ver : {"FO3", "SK", "SSE"}) partAssignCase(c, k, ver, out);
+				{
+					for (const char* ver : {"FO3", "SK", "SSE"}) partAssignCase(c, k, ver, false, out);
+					partAssignCase(c, k, k % 2 ? "FO3" : "SK", true, out);
+				}
 			}
 		},
 		[&](size_t ci, const std::string& why, FILE* out) { fprintf(out, "{\"e\":\"crash\",\"chunk\":%zu,\"why\":%s}\n", ci, J::str(why).s.c_str()); });
